@@ -152,47 +152,61 @@ def _job(job) -> List[Dict[str, Any]]:
                 continue
             rule = {"predict_win": "R12.1", "predict_rank": "R12.2", "predict_draw": "R12.3"}[op]
             c = f"{op} computes the statement's closed form: team sizes {sizes}"
+            def term_fn(rels, _op=op, _sizes=sizes):
+                amap, _ = game.equation_substitution(rels)
+                if _op == "predict_win":
+                    return game.win_terms(prog, roles, _sizes, atom_map=amap, rels=rels)
+                if _op == "predict_rank":
+                    return game.rank_terms(prog, roles, _sizes, atom_map=amap, rels=rels)
+                d_, bad_ = game.draw_term(prog, roles, _sizes, atom_map=amap, rels=rels)
+                return (None if d_ is None else {"draw": d_}), bad_
+
             try:
-                if op == "predict_win":
-                    got, bad = game.win_terms(prog, roles, sizes)
-                elif op == "predict_rank":
-                    got, bad = game.rank_terms(prog, roles, sizes)
-                else:
-                    d, bad = game.draw_term(prog, roles, sizes)
-                    got = None if d is None else {"draw": d}
+                leaves = game.case_split(term_fn)
             except Exception as e:  # noqa: BLE001
-                got, bad = None, f"abstract evaluation failed: {type(e).__name__}: {e}"
-            if got is None:
-                out.append(game._inst(rule, "VIOLATED" if isinstance(bad, tuple) else "UNDECIDED", roles, op, c, bad[1] if isinstance(bad, tuple) else bad))
-                continue
+                leaves = [((), None, f"abstract evaluation failed: {type(e).__name__}: {e}")]
             verdict, msg = "HOLDS", ""
-            for k, term in want.items():
-                wp = to_poly(_fractions_to_consts(term))
-                gp = got.get(k)
-                if wp is None or gp is None:
-                    verdict, msg = "UNDECIDED", "a term has no normal form"
-                    break
-                diff = p_add(gp, wp, -1)
-                z = game.zero_up_to_abs(diff) if game._abs_atoms(diff) else game.is_zero(diff)
-                if z is not True:
-                    d2 = p_add(snap_poly(gp), snap_poly(wp), -1)
-                    z2 = game.zero_up_to_abs(d2) if game._abs_atoms(d2) else game.is_zero(d2)
-                    if z2 is True:
-                        z = True
-                if z is True:
+            for rels, got, bad in leaves:
+                case = ("" if not rels else " [case " + ", ".join(f"{show(to_poly(a), 40)} {dict(LT='<', EQ='==', GT='>')[r]} {show(to_poly(b), 40)}" for a, b, r in rels) + "]")
+                if got is None:
+                    if isinstance(bad, tuple):
+                        verdict, msg = "VIOLATED", bad[1] + case
+                        break
+                    if verdict == "HOLDS":
+                        verdict, msg = "UNDECIDED", str(bad) + case
                     continue
-                calls: set = set()
-                _calls_in(gp, calls)
-                foreign = sorted(x for x in calls if x not in KNOWN_CALLS)
-                if z is None or foreign or PHI not in calls:
-                    verdict = "UNDECIDED"
-                    msg = ("the difference could not be normalised" if z is None else
-                           f"the code's term is built from functions the comparison does not know ({foreign or 'no Gaussian CDF call'}): not comparable with the statement's form")
-                else:
-                    verdict = "VIOLATED"
-                    who = "the value" if k == "draw" else f"the value for team {k}"
-                    msg = f"{who} is not the statement's closed form; code minus statement = {show(diff, 300)}"
-                break
+                amap, unsolved = game.equation_substitution(rels)
+                for k, term in want.items():
+                    wp = to_poly(_fractions_to_consts(term), amap)
+                    gp = got.get(k)
+                    if wp is None or gp is None:
+                        if verdict == "HOLDS":
+                            verdict, msg = "UNDECIDED", "a term has no normal form" + case
+                        break
+                    diff = p_add(gp, wp, -1)
+                    z = game.zero_up_to_abs(diff) if game._abs_atoms(diff) else game.is_zero(diff)
+                    if z is not True:
+                        d2 = p_add(snap_poly(gp), snap_poly(wp), -1)
+                        z2 = game.zero_up_to_abs(d2) if game._abs_atoms(d2) else game.is_zero(d2)
+                        if z2 is True:
+                            z = True
+                    if z is True:
+                        continue
+                    calls: set = set()
+                    _calls_in(gp, calls)
+                    foreign = sorted(x for x in calls if x not in KNOWN_CALLS)
+                    if z is None or foreign or (PHI not in calls and gp) or unsolved:
+                        if verdict == "HOLDS":
+                            verdict = "UNDECIDED"
+                            msg = ("the difference could not be normalised" if z is None else "an assumed equation could not be substituted" if unsolved else
+                                   f"the code's term is built from functions the comparison does not know ({foreign or 'no Gaussian CDF call'}): not comparable with the statement's form") + case
+                    else:
+                        verdict = "VIOLATED"
+                        who = "the value" if k == "draw" else f"the value for team {k}"
+                        msg = f"{who} is not the statement's closed form{case}; code minus statement = {show(diff, 300)}"
+                    break
+                if verdict == "VIOLATED":
+                    break
             out.append(game._inst(rule, verdict, roles, op, c, msg))
     return out
 
